@@ -118,8 +118,11 @@ func TestVerifReplay(t *testing.T) {
 	for i := 0; i < rounds; i++ {
 		words := lists[r.intn(len(lists))]
 		length := 1 + r.intn(6)
+		if i%50 == 0 {
+			length = []int{63, 64, 65, 66, 100, 130, 257}[r.intn(7)] // machine-word boundaries of any per-position bookkeeping
+		}
 		cs := schemes[r.intn(len(schemes))]
-		tape := make([]byte, 512)
+		tape := make([]byte, 512+16*length)
 		for j := range tape {
 			tape[j] = byte(r.next())
 		}
